@@ -895,7 +895,193 @@ def rule_precision(ctx):
                         bad.append(f"`{fmt_term(f.term(i, inline=False))[:60]}` has type {t['s']} (line {nd['l']})")
             obs.append(Ob('PRECISION', f, 0, 'all floating arithmetic and casts of the segment geometry are long double',
                           f"{n} floating operations, all long double" if not bad else bad[0], OK if not bad else VIOLATED, arm=f.name))
+    # relative abscissa: a long double holds a 64-bit key exactly but has no bit left for the fraction of an abscissa next to
+    # it, so `(i_x - first_x) * slope` computed from an absolute i_x is off by up to slope / 2 positions.  Every user of the
+    # intersection point must ask for it relative to an origin (the segment's first key).
+    n_calls = 0
+    for u in ctx.units:
+        for f in u.functions.values():
+            if not f.tname.startswith('pgm::'):
+                continue
+            for c in f.calls_to(CS + 'get_intersection'):
+                if not reachable(f, c):
+                    continue
+                n_calls += 1
+                args = [a for a in f.n(c).get('args', [])]
+                explicit = [a for a in args if f.n(a)['c'] != 'CXXDefaultArgExpr']
+                ok = len(explicit) >= 1
+                obs.append(Ob('PRECISION', f, c, 'the intersection point is requested relative to an origin (its abscissa keeps a fractional part even next to a 64-bit key)',
+                              ('origin `' + fmt_term(f.term(explicit[0], inline=False))[:50] + '`') if ok else 'the absolute intersection is used: next to keys >= 2^63 the abscissa is an integer and the intercept is off by up to slope / 2',
+                              OK if ok else VIOLATED, arm='relative-abscissa'))
+    if n_calls == 0:
+        raise AnalysisBroken('PRECISION: no call of CanonicalSegment::get_intersection found (anchor vanished)')
     return obs
+
+
+# ------------------------------------------------------------------------------------------ INDEX-COVER
+class _Unknown(Exception):
+    pass
+
+
+def _cover_eval(t, env, D):
+    """evaluate a guard of make_segmentation under a valuation of {n, start, end, loop variable} (integers) and of the
+    predicates D[k] = `in(k) == in(k-1)`; anything else is unknown"""
+    t = strip_cast(t)
+    k = t[0]
+    if k == 'lit' and isinstance(t[1], int):
+        return t[1]
+    if k in ('param', 'local'):
+        if t[1] in env:
+            return env[t[1]]
+        raise _Unknown(fmt_term(t))
+    if k == 'un' and t[1] == '!':
+        return not _cover_eval(t[2], env, D)
+    if k == 'op' and len(t) == 4:
+        o = t[1]
+        if o in ('&&', '||'):
+            a = _cover_eval(t[2], env, D)
+            if o == '&&' and a is False:
+                return False
+            if o == '||' and a is True:
+                return True
+            return _cover_eval(t[3], env, D)
+        if o in ('==', '!=') and is_in_call(t[2]) and is_in_call(t[3]):
+            a, b = _cover_eval(in_arg(t[2]), env, D), _cover_eval(in_arg(t[3]), env, D)
+            if a == b:
+                return o == '=='
+            if abs(a - b) == 1 and max(a, b) in D:
+                return D[max(a, b)] == (o == '==')
+            raise _Unknown(fmt_term(t))
+        a, b = _cover_eval(t[2], env, D), _cover_eval(t[3], env, D)
+        if isinstance(a, bool) or isinstance(b, bool):
+            raise _Unknown(fmt_term(t))
+        if o == '+':
+            return a + b
+        if o == '-':
+            return a - b
+        return {'<': a < b, '<=': a <= b, '>': a > b, '>=': a >= b, '==': a == b, '!=': a != b}[o]
+    raise _Unknown(fmt_term(t))
+
+
+def rule_index_cover(ctx):
+    """make_segmentation(n, start, end, ...) feeds every rank of [start, end) that is not a duplicate of its predecessor:
+    for every k in [start, end), if k == start or in(k) != in(k-1) then some `add_point(in(e), e)` site with e = k is reached.
+    The sites, their path conditions and the bounds of the loop are read off the CFG; the obligation is then decided on the
+    abstract model {start, end, n, D[k] = (in(k) == in(k-1))}: all guards are difference constraints with constants <= 2, so
+    chunk lengths 1..6 (every position relative to both ends) at two offsets, with every duplicate pattern, are exhaustive."""
+    obs = []
+    for f in six(ctx):
+        lams = inner_lambda(f)
+        if not lams:
+            continue
+        lid = lams[0].id
+        g = graph(f)
+        Nn, Sn, En = f.params[0]['name'], f.params[1]['name'], f.params[2]['name']
+        sites = []
+        undecided = None
+        for c in [c for c in f.calls() if f.n(c).get('cd') == lid and reachable(f, c)]:
+            a = f.n(c)['args']
+            x = strip_cast(f.term(a[1], inline=False))
+            yt = nocast(f.term(a[2], inline=False))
+            if not (is_in_call(x) and in_arg(x) == yt):
+                continue    # successor / closing points: RANK-AGREE, GAP-GUARD
+            conds = []
+            loopvar = None
+            for (t, lab, cn, cb) in conds_of_b(f, c, inline=False):
+                tc = g.blocks[cb].get('term_c')
+                if tc in ('ForStmt', 'WhileStmt'):
+                    # the loop this site sits in: for (i = init; cond; ++i) with no other write to i, no break
+                    loop = _loop_info(f, g, cb)
+                    if loop is None:
+                        undecided = f"loop at line {f.n(cn)['l']}: not a `for (i = a; cond; ++i)` without break or other writes to i"
+                    else:
+                        loopvar = (loop[0], loop[1], nocast(t))
+                    conds.append((nocast(t), lab))
+                elif tc == 'IfStmt':
+                    conds.append((nocast(t), lab))
+                # the short-circuit blocks of && / || belong to a whole condition that is listed as well
+            sites.append((c, yt, conds, loopvar))
+        if undecided:
+            obs.append(Ob('INDEX-COVER', f, 0, 'every rank of [start, end) is fed or duplicates its predecessor', undecided, UNDECIDED, arm='cover'))
+            continue
+        if not sites:
+            obs.append(Ob('INDEX-COVER', f, 0, 'every rank of [start, end) is fed or duplicates its predecessor', 'no add_point(in(e), e) site', VIOLATED, arm='cover'))
+            continue
+        bad = None
+        unknown = None
+        n_models = 0
+        for start in (0, 3):
+            for ln in range(1, 7):
+                end = start + ln
+                for n in (end, end + 2):
+                    ks = list(range(start + 1, end))
+                    for bits in itertools.product((False, True), repeat=len(ks)):
+                        D = dict(zip(ks, bits))
+                        n_models += 1
+                        for k in range(start, end):
+                            if k != start and D[k]:
+                                continue
+                            covered = False
+                            for (c, yt, conds, loop) in sites:
+                                env = {Nn: n, Sn: start, En: end}
+                                try:
+                                    if loop is not None:
+                                        lv, init, lcond = loop
+                                        lo = _cover_eval(init, env, D)
+                                        if k < lo:
+                                            continue
+                                        # the loop reaches i = k only if its condition held for every earlier value
+                                        if not all(_cover_eval(lcond, dict(env, **{lv: j}), D) for j in range(lo, k)):
+                                            continue
+                                        env[lv] = k
+                                    if _cover_eval(yt, env, D) != k:
+                                        continue
+                                    if all(_cover_eval(t, env, D) == lab for (t, lab) in conds):
+                                        covered = True
+                                        break
+                                except _Unknown as e:
+                                    unknown = str(e)
+                            if not covered and bad is None:
+                                dup = ', '.join(f"in({j}){'==' if D[j] else '!='}in({j - 1})" for j in ks)
+                                bad = f"start={start}, end={end}, n={n}" + (f" ({dup})" if dup else '') + f": rank {k} is never fed to the builder"
+        req = 'every rank k of [start, end) with k == start or in(k) != in(k-1) reaches an add_point(in(k), k) site (for every chunk length, also 1 and 2)'
+        if bad and not unknown:
+            obs.append(Ob('INDEX-COVER', f, sites[0][0], req, bad, VIOLATED, arm='cover'))
+        elif unknown and bad:
+            obs.append(Ob('INDEX-COVER', f, sites[0][0], req, f"a guard outside the model: `{unknown[:70]}`", UNDECIDED, arm='cover'))
+        else:
+            obs.append(Ob('INDEX-COVER', f, sites[0][0], req, f"{len(sites)} sites cover every rank in {n_models} abstract models (lengths 1..6, all duplicate patterns)", OK, arm='cover'))
+    return obs
+
+
+def _loop_info(f, g, cb):
+    """(loop variable name, init term, cond node) of the for statement whose condition block is cb, or None"""
+    for i in f.all_ids():
+        nd = f.n(i)
+        if nd['c'] != 'ForStmt':
+            continue
+        if len(nd['ch']) != 4:       # for (init; cond; inc) body  - absent parts are not exported
+            continue
+        init, cond, inc, body = nd['ch']
+        if f.strip(cond) != f.strip(g.cond(cb)):
+            continue
+        ini = f.n(init)
+        if ini['c'] != 'DeclStmt' or len(ini.get('vars', [])) != 1:
+            return None
+        v = ini['vars'][0]
+        d = f.defs.get(v['id'])
+        if not d or not d.get('init'):
+            return None
+        inc_t = strip_cast(f.term(inc, inline=False))
+        if not (inc_t[0] == 'un' and inc_t[1] in ('++', 'post++') and strip_cast(inc_t[2])[0] == 'local' and strip_cast(inc_t[2])[2] == v['id']):
+            return None
+        if any(w != f.strip(inc) and w not in set(f.walk(inc)) for w in d['writes']):
+            return None
+        for j in f.walk(body):
+            if f.n(j)['c'] in ('BreakStmt', 'ReturnStmt', 'GotoStmt'):
+                return None
+        return (v['name'], nocast(f.term(d['init'], inline=False)), cond)
+    return None
 
 
 # ------------------------------------------------------------------------------------------ SLOPE-ORDER
@@ -993,7 +1179,7 @@ def rule_slope_order(ctx, exact=True):
 
 
 def rules_c03(ctx):
-    return rule_no_drop(ctx) + rule_rank_agree(ctx) + rule_omp_order(ctx) + rule_seam(ctx) + rule_key_arith(ctx) + [o for o in rule_geom_guards(ctx, exact=False) if o.rule == 'GEOM-GUARDS'] + rule_slope_order(ctx, exact=False) + rule_precision(ctx)
+    return rule_no_drop(ctx) + rule_index_cover(ctx) + rule_rank_agree(ctx) + rule_omp_order(ctx) + rule_seam(ctx) + rule_key_arith(ctx) + [o for o in rule_geom_guards(ctx, exact=False) if o.rule == 'GEOM-GUARDS'] + rule_slope_order(ctx, exact=False) + rule_precision(ctx)
 
 
 def rules_c04(ctx):
